@@ -26,7 +26,12 @@ def decorate(ctx, kind, w):
     for a in w["arr"]:
         src = 0 if style == "single" else 1 if style == "chain" else rng.choice(SRC)
         arr.append({"t": a["t"], "sz": a["sz"], "src": src})
-    return {"kind": kind, "cfg": cfg, "arr": arr}
+    sc = {"kind": kind, "cfg": cfg, "arr": arr}
+    if kind == "trtb" and not cfg.get("PIR"):
+        # a peak burst size without a peak rate is still "no PIR given": the committed bucket alone shapes
+        if w.get("idle_pbs") or rng.random() < 0.3:
+            sc["idle_pbs"] = w.get("idle_pbs") or rng.choice([1, 2, 3, 6, 9, 30]) * max(1, cfg["CIR"])
+    return sc
 
 
 def random_tb(ctx):
@@ -68,7 +73,10 @@ def random_trtb(ctx):
     for _ in range(n):
         t += step * rng.choice([0, 0, 0, 1, 1, 2, 3, 5, 8, 20, 60])
         arr.append({"t": t, "sz": u * rng.choice([1, 1, 2, 3, 4, 5, 7, 12])})
-    return {"cfg": {"CIR": cir, "CBS": cbs, "PIR": pir, "PBS": pbs}, "arr": arr}
+    sc = {"cfg": {"CIR": cir, "CBS": cbs, "PIR": pir, "PBS": pbs}, "arr": arr}
+    if not pir and rng.random() < 0.4:
+        sc["idle_pbs"] = u * rng.choice([1, 2, 3, 6, 9, 30])     # pbs without pir: still "no PIR is given"
+    return sc
 
 
 def coincide(ctx, sc, tr):
@@ -86,7 +94,7 @@ def coincide(ctx, sc, tr):
         return None
     for a in arr[k:]:
         a["src"] = rng.choice(SRC)
-    return {"kind": sc["kind"], "cfg": sc["cfg"], "arr": arr}
+    return dict({"kind": sc["kind"], "cfg": sc["cfg"], "arr": arr}, **({"idle_pbs": sc["idle_pbs"]} if sc.get("idle_pbs") else {}))
 
 
 def classify(ctx, sc, tr):
@@ -113,6 +121,8 @@ def classify(ctx, sc, tr):
             spacing = (e["sz"] // cfg["P"]) if tb and cfg["P"] else 0
             if e["t"] - spacing > head:
                 kinds.add("waited_for_tokens")
+                if sc.get("idle_pbs"):
+                    kinds.add("waited_for_committed_tokens_with_pbs_but_no_pir")
             if spacing:
                 kinds.add("peak_spacing")
             if last_d is not None and arr_t.get(e["id"], 0) - last_d >= (bsize + brate - 1) // brate:
